@@ -166,24 +166,32 @@ def pyMaxStrDigits : Nat := 4300
 /--
 `int(s)` for a `str`, base 10, after `PyLong_FromString` / `long_from_string_base` (CPython 3.12):
 skip leading whitespace; one optional sign; a run of digits and underscores with no leading,
-trailing or doubled underscore; more than `maxDigits` digits (underscores not counted, leading
-zeros counted; `maxDigits = 0` disables the limit) ⇒ ValueError; no digits ⇒ ValueError; skip
-trailing whitespace; anything left ⇒ ValueError.
+trailing or doubled underscore; no digits ⇒ ValueError; skip trailing whitespace; anything left
+⇒ ValueError; more than `maxDigits` digits (underscores not counted, leading zeros counted;
+`maxDigits = 0` disables the limit) ⇒ ValueError.  Which of the two ValueErrors is reported when
+both apply was *measured*: the syntax error wins, except that the C parser stops at an embedded
+NUL, so `"9"*4301 + "\0…"` reports the digit limit and `"12\0"` is an invalid literal.
 -/
+def pyIntBody (maxDigits : Nat) (neg : Bool) (s2 : List Char) : IntParse :=
+  let run := s2.takeWhile isRunChar
+  let rest := s2.dropWhile isRunChar
+  let digits := run.filter Char.isDigit
+  let tail := rest.dropWhile isIntSpace
+  if run.head? == some '_' then .invalidLiteral
+  else if hasDoubleUnderscore run then .invalidLiteral
+  else if run.getLast? == some '_' then .invalidLiteral
+  else if run.isEmpty then .invalidLiteral
+  else if !tail.isEmpty && tail.head? != some '\x00' then .invalidLiteral
+  else if 0 < maxDigits && maxDigits < digits.length then .tooManyDigits
+  else if !tail.isEmpty then .invalidLiteral
+  else .value (if neg then -(decVal digits : Int) else (decVal digits : Int))
+
+/-- leading whitespace and the optional sign, then `pyIntBody` -/
 def pyIntL (maxDigits : Nat) (s : List Char) : IntParse :=
   let s1 := s.dropWhile isIntSpace
   let neg := s1.head? == some '-'
   let s2 := if s1.head? == some '+' || s1.head? == some '-' then s1.tail else s1
-  let run := s2.takeWhile isRunChar
-  let rest := s2.dropWhile isRunChar
-  let digits := run.filter Char.isDigit
-  if run.head? == some '_' then .invalidLiteral
-  else if hasDoubleUnderscore run then .invalidLiteral
-  else if run.getLast? == some '_' then .invalidLiteral
-  else if 0 < maxDigits && maxDigits < digits.length then .tooManyDigits
-  else if run.isEmpty then .invalidLiteral
-  else if !(rest.dropWhile isIntSpace).isEmpty then .invalidLiteral
-  else .value (if neg then -(decVal digits : Int) else (decVal digits : Int))
+  pyIntBody maxDigits neg s2
 
 def pyInt (maxDigits : Nat) (s : String) : IntParse := pyIntL maxDigits s.toList
 
@@ -294,7 +302,7 @@ inductive Headers
       or an iterator / generator (`isIterator = true`, always truthy). -/
   | pairs (es : List Entry) (isIterator : Bool)
   /-- anything else (an int, an arbitrary object): iterating raises TypeError. -/
-  | opaque (truthy : Bool)
+  | inert (truthy : Bool)
 deriving Repr, Inhabited
 
 /-- `bool(headers)` -/
@@ -303,7 +311,7 @@ def Headers.truthy : Headers → Bool
   | .mapping es _ _ _ => !es.isEmpty
   | .getter _ _ _ _ _ t => t
   | .pairs es it => it || !es.isEmpty
-  | .opaque t => t
+  | .inert t => t
 
 /-- Does the entry answer `get(name)`?  Only a `str` key equals a `str`. -/
 def Entry.keyIs (ci : Bool) (name : String) : Entry → Bool
@@ -341,14 +349,17 @@ if value is not None: return str(value)
 ```
 `some s` = returned `s`; `none` = fell through to the scan. -/
 def getPhase (maxDigits : Nat) (getRaises : Option ExcKind) (ci : Bool) (es : List Entry)
-    (name : String) : Py (Option String) := do
-  let value ← getCall getRaises ci es name
-  let value ← if value.isNone then getCall getRaises ci es (pyLower name) else pure value
-  if !value.isNone then
-    let s ← pyStr maxDigits value
-    return some s
-  else
-    return none
+    (name : String) : Py (Option String) :=
+  match getCall getRaises ci es name with                      -- value = get(name)
+  | .error k => .error k
+  | .ok v1 =>
+    let second : Py PyVal :=                                   -- if value is None: value = get(name.lower())
+      if v1.isNone then getCall getRaises ci es (pyLower name) else .ok v1
+    match second with
+    | .error k => .error k
+    | .ok v =>
+      if v.isNone then .ok none                                -- (fall through to the scan)
+      else (pyStr maxDigits v).map some                        -- if value is not None: return str(value)
 
 /-- `.items()` then the scan -/
 def itemsScan (maxDigits : Nat) (itemsRaises : Option ExcKind) (es : List Entry) (name : String) :
@@ -362,20 +373,22 @@ def lookupHeader (maxDigits : Nat) (headers : Headers) (name : String) : Py (Opt
   match headers with
   | .absent => .ok none                                        -- if headers is None: return None
   | .mapping es ci getRaises itemsRaises =>                    -- if isinstance(headers, Mapping):
-      tryExcept ExcKind.isException (do                        --   try: … except Exception: return None
-        match ← getPhase maxDigits getRaises ci es name with
-        | some s => return some s
-        | none => itemsScan maxDigits itemsRaises es name) none
+      tryExcept ExcKind.isException                            --   try: … except Exception: return None
+        (match getPhase maxDigits getRaises ci es name with
+         | .error k => .error k
+         | .ok (some s) => .ok (some s)
+         | .ok none => itemsScan maxDigits itemsRaises es name) none
   | .getter es ci getRaises items iterable _ =>
       -- first try-block: `some r` = it returned `r`, `none` = it fell through
       let first : Py (Option (Option String)) :=
-        tryExcept ExcKind.isException (do
-          match ← getPhase maxDigits getRaises ci es name with
-          | some s => return some (some s)
-          | none =>
-              match items with
-              | some itemsRaises => return some (← itemsScan maxDigits itemsRaises es name)
-              | none => return none) (some none)
+        tryExcept ExcKind.isException
+          (match getPhase maxDigits getRaises ci es name with
+           | .error k => .error k
+           | .ok (some s) => .ok (some (some s))
+           | .ok none =>
+              match items with                                 -- items = getattr(headers, "items", None)
+              | some itemsRaises => (itemsScan maxDigits itemsRaises es name).map some
+              | none => .ok none) (some none)
       match first with
       | .error k => .error k
       | .ok (some r) => .ok r
@@ -384,7 +397,7 @@ def lookupHeader (maxDigits : Nat) (headers : Headers) (name : String) : Py (Opt
           if iterable then tryExcept ExcKind.isException (scanEntries maxDigits name es) none
           else .ok none                                        -- TypeError: not iterable → None
   | .pairs es _ => tryExcept ExcKind.isException (scanEntries maxDigits name es) none
-  | .opaque _ => .ok none                                      -- TypeError: not iterable → None
+  | .inert _ => .ok none                                      -- TypeError: not iterable → None
 
 /-! ## `_coerce_retry_after`, `http_retry_after_classifier` -/
 
